@@ -46,6 +46,7 @@ func init() {
 			{Name: "dialed-connection-lost-while-attaching", Mode: "sched", Bound: map[string]int{"quick": 2, "thorough": 3}[tier], Reset: kit.ResetGlobals, Body: lostWhileAttaching},
 			{Name: "tcp-handshakes-aborted-then-peer", Mode: "enum", Reset: kit.ResetGlobals, Body: c13.TCPAborted},
 			{Name: "backoff-reset-when-lost-inside-the-attached-callback", Mode: "enum", Reset: kit.ResetGlobals, Body: lostInsideCallback, NeedCounters: []string{"backoff-was-reset"}},
+			{Name: "socket-with-several-dialers-and-listeners-closed", Mode: "enum", Reset: kit.ResetGlobals, Body: SeveralEndpointsClosed, NeedCounters: []string{"three-or-more-dialers-all-stopped"}},
 			{Name: "socket-close-vs-new-dialer", Mode: "sched", Bound: map[string]int{"quick": 2, "thorough": 3}[tier], Reset: kit.ResetGlobals, Body: closeVsNewDialer},
 		}
 	})
@@ -535,6 +536,111 @@ func closeVsNewDialer() {
 		kit.Failf("leak-after-close", "after Close vs NewDialer+Dial: %s", bad)
 	}
 	kit.Observe("%v %s dials=%d", dc.Val, kit.ErrName(dc.Err), n)
+}
+
+// SeveralEndpointsClosed: one socket with 1-4 dialers (each either in its redial cycle against a
+// refusing address or connected) and 0-3 listeners; one of the dialers may have been closed by the
+// application before.  The socket is closed: from then on no address sees another connection
+// attempt, no address is listened on, every connection is closed, nothing is left behind - and a
+// dialer closed on its own stops alone (the others keep redialling until the socket goes).
+func SeveralEndpointsClosed() {
+	nd := 1 + kit.ChooseFree(4)
+	nl := kit.ChooseFree(4)
+	s, _ := xpub.NewSocket()
+	_ = s.SetOption(mangos.OptionReconnectTime, 100*time.Millisecond)
+	_ = s.SetOption(mangos.OptionMaxReconnectTime, 100*time.Millisecond)
+	var eps []*vt.Endpoint
+	var ds []mangos.Dialer
+	connected := make([]bool, nd)
+	for i := 0; i < nd; i++ {
+		ep := vt.Get(fmt.Sprintf("several-d%d", i))
+		connected[i] = kit.ChooseFree(2) == 1
+		if connected[i] {
+			ep.Script(vt.DialOK)
+		} else {
+			ep.Script(vt.DialRefused)
+		}
+		d, err := s.NewDialer(fmt.Sprintf("vt://several-d%d", i), map[string]interface{}{mangos.OptionDialAsynch: true})
+		if err != nil {
+			kit.Failf("setup", "NewDialer: %s", kit.ErrName(err))
+		}
+		if err := d.Dial(); err != nil {
+			kit.Failf("setup", "Dial: %s", kit.ErrName(err))
+		}
+		eps = append(eps, ep)
+		ds = append(ds, d)
+	}
+	var leps []*vt.Endpoint
+	for i := 0; i < nl; i++ {
+		if err := s.Listen(fmt.Sprintf("vt://several-l%d", i)); err != nil {
+			kit.Failf("setup", "Listen: %s", kit.ErrName(err))
+		}
+		ep := vt.Get(fmt.Sprintf("several-l%d", i))
+		ep.Connect()
+		leps = append(leps, ep)
+	}
+	kit.Sleep(350 * time.Millisecond)
+	kit.Quiesce()
+	for i, ep := range eps {
+		if !connected[i] && ep.NumDials() < 3 {
+			kit.Failf("setup", "dialer %d made %d attempts in 350 ms at a reconnect time of 100 ms", i, ep.NumDials())
+		}
+	}
+	// the application closes one dialer itself first (or none)
+	own := kit.ChooseFree(nd+1) - 1
+	before := make([]int, nd)
+	if own >= 0 {
+		kit.Must("Dialer.Close", func() { _ = ds[own].Close() })
+		kit.Quiesce()
+		for i, ep := range eps {
+			before[i] = ep.NumDials()
+		}
+		kit.Sleep(350 * time.Millisecond)
+		kit.Quiesce()
+		for i, ep := range eps {
+			n := ep.NumDials() - before[i]
+			if i == own && n != 0 {
+				kit.Failf("dial-after-dialer-close", "dialer %d of %d was closed: %d connection attempt(s) afterwards", i, nd, n)
+			}
+			if i != own && !connected[i] && n < 3 {
+				kit.Failf("other-dialer-stopped", "dialer %d of %d was closed: dialer %d (refused, reconnect time 100 ms) made only %d attempt(s) in the following 350 ms", own, nd, i, n)
+			}
+		}
+	}
+	kit.Must("Socket.Close", func() { _ = s.Close() })
+	kit.Quiesce()
+	for i, ep := range eps {
+		before[i] = ep.NumDials()
+	}
+	kit.Sleep(10 * time.Second)
+	kit.Quiesce()
+	for i, ep := range eps {
+		if n := ep.NumDials() - before[i]; n != 0 {
+			kit.Failf("dial-after-close", "the socket (with %d dialers, this is number %d; %d listeners) was closed: %d connection attempt(s) to its address afterwards", nd, i, nl, n)
+		}
+		for j := 0; j < ep.NumPipes(); j++ {
+			if ep.PipeAt(j).Alive() {
+				kit.Failf("connection-left-open", "the socket was closed: the connection made by dialer %d of %d is still open", i, nd)
+			}
+		}
+	}
+	for i, ep := range leps {
+		if ep.Listening() {
+			kit.Failf("still-listening-after-close", "the socket (with %d listeners, this is number %d; %d dialers) was closed: the address is still listened on", nl, i, nd)
+		}
+		for j := 0; j < ep.NumPipes(); j++ {
+			if ep.PipeAt(j).Alive() {
+				kit.Failf("connection-left-open", "the socket was closed: the connection accepted by listener %d of %d is still open", i, nl)
+			}
+		}
+	}
+	if bad := kit.Census(); bad != "" {
+		kit.Failf("leak-after-close", "socket with %d dialers and %d listeners closed: %s", nd, nl, bad)
+	}
+	if nd >= 3 {
+		kit.Count("three-or-more-dialers-all-stopped")
+	}
+	kit.Observe("nd=%d nl=%d conn=%v own=%d", nd, nl, connected, own)
 }
 
 // protocolRefusal: the transport connection succeeds but the protocol refuses the pipe (a PAIR
